@@ -596,7 +596,7 @@ def reject_if(ctx, rid, f, pred, pol, what, construct, success=None, min_edges=1
     for bid, i, s, ef in edges:
         # what is known when this edge is taken: everything the edge establishes plus the guard facts that hold at
         # the end of its block on every path
-        known = {(k, p) for k, p, a in f.edge_facts(bid, i)}
+        known = {(k, p) for k, p, a in f.edge_facts(bid, i, all=True)}
         known |= {(k, p) for k, (p, a) in f.facts_at({'_b': bid, '_i': len(f.blocks[bid]['ev'])}).items() if (k, not p) not in known}
         r = f.find_path(None, succ_pred, from_succ=s, init_facts=frozenset(known),
                         is_blocker=lambda x: (x['k'] == 'ret' and not succ_pred(x)) or
